@@ -1244,6 +1244,22 @@ theorem readOnly_default_regression :
       !firesD false s (.obj []) && firesD true s (.obj []) &&
       !(visD true false s (.obj [(['a'], .int 1)])).isSome && satReqB false s (.obj [])) = true := by decide
 
+/-- regression of repair 197d46a (the schema below `not` is tried on a private copy): the defaults of a schema the
+value must NOT match never reach the value. `{}` against `{type: object, additionalProperties: false,
+not: {required: [b], properties: {a: {default: 1}}}}`: the `not` schema fails (no `b`), so `not` passes; its default
+`a` is not written into the value (before the repair it was, and `a` was then an unsupported property): accepted,
+value unchanged, for both settings of default-setting; and a `not` schema that matches only thanks to its own
+default rejects under default-setting (the candidate is judged completed, like a oneOf/anyOf candidate) -/
+theorem not_defaults_do_not_leak :
+    let pa := RS.mk none false false false 0 none [] [] none none none [] [] [] { dflt := some (.int 1) }
+    let n1 := RS.leaf none false false false 0 none [(['a'], pa)] [['b']] none none
+    let s1 := RS.mk (some .object) false false false 0 none [] [] (some false) none (some n1) [] [] [] {}
+    let n2 := RS.leaf none false false false 0 none [(['a'], pa)] [['a']] none none
+    let s2 := RS.mk (some .object) false false false 0 none [] [] none none (some n2) [] [] [] {}
+    (match visD true false s1 (.obj []) with | some v' => V.beq v' (.obj []) | none => false) = true ∧
+    visit false s1 (.obj []) = true ∧ firesD false s1 (.obj []) = true ∧
+    (visD true false s2 (.obj [])).isSome = false ∧ visit false s2 (.obj []) = true := by decide
+
 /-- a write-only property and a plain property do receive their defaults; the completed value is what the rest of
 the validation sees -/
 example :
@@ -1324,6 +1340,49 @@ theorem completed_reading (exro : Bool) (s : RS) (v : V) (hc : compFree s = true
     (hv : v.wf = true) : (visD true exro s v).isSome = true ↔ SatReq exro s (complete exro s v) := by
   rw [visD_completed_visit exro s v hc hs hv]; exact visit_asreq_iff exro s _
 
+/-- … and the value the validator hands on (the one re-encoded for the next handler) is exactly the completed
+value: for composition-free schemas the one-pass validator with `DefaultsSet` IS "complete, then validate" -/
+theorem visD_is_complete_then_validate (exro : Bool) (s : RS) (v : V) (hc : compFree s = true) (hs : s.wf = true)
+    (hv : v.wf = true) :
+    visD true exro s v = (if satReqB exro s (complete exro s v) then some (complete exro s v) else none) := by
+  have h1 := visD_completed_visit exro s v hc hs hv
+  rw [visit_eq_satReqB] at h1
+  cases hx : visD true exro s v with
+  | none => rw [hx] at h1; simp only [Option.isSome_none] at h1; simp [← h1]
+  | some v' =>
+    rw [hx] at h1
+    simp only [Option.isSome_some] at h1
+    rw [← h1, visD_value_compFree exro s hc v v' hx]
+    rfl
+
+/-- **allOf with defaults, composition-free members**: the sequential visit of the members IS the chain
+"complete by the member, check the member, hand the completed value to the next member" — which is why a default
+injected by an earlier member is seen by a later one (and can be rejected by it, `default_decides_witnesses` (3)),
+while a later member's default is never seen by an earlier one -/
+theorem allOf_is_chain (exro : Bool) (l : List RS) (hl : ∀ m ∈ l, compFree m = true ∧ m.wf = true) :
+    ∀ v, v.wf = true → visAll true exro l v = chainComplete exro l v := by
+  induction l with
+  | nil => intro v _; rfl
+  | cons m r ih =>
+    intro v hv
+    obtain ⟨hc, hs⟩ := hl m (by simp)
+    unfold visAll chainComplete
+    rw [visD_is_complete_then_validate exro m v hc hs hv]
+    cases satReqB exro m (complete exro m v) with
+    | false => rfl
+    | true =>
+      simp only [if_true, Option.bind_some]
+      exact ih (fun x hx => hl x (by simp [hx])) _ (complete_wf exro m hs v hv)
+
+example :
+    let pa := exIntD false false (some (.int 1))
+    let m1 := RS.leaf none false false false 0 none [(['a'], pa)] [] none none
+    let m2 := RS.leaf none false false false 0 none [] [['a']] none none
+    let m3 := RS.leaf none false false false 0 none [] [] (some false) none
+    (match chainComplete false [m1, m2] (.obj []) with | some v => V.beq v (.obj [(['a'], .int 1)]) | none => false) = true ∧
+    (chainComplete false [m2, m1] (.obj [])).isSome = false ∧
+    (chainComplete false [m1, m3] (.obj [])).isSome = false ∧ (chainComplete false [m3, m1] (.obj [])).isSome = true := by decide
+
 /-- harmless defaults: completing the value does not change whether it satisfies the schema -/
 theorem harmless_completion (exro : Bool) (s : RS) (v : V) (hc : compFree s = true) (hs : s.wf = true)
     (hv : v.wf = true) (hh : dfltsHarmless exro s = true) :
@@ -1376,10 +1435,7 @@ theorem accept_iff_completed_partial (reg : List (Str × DecK)) (rb : ReqBody) (
             simp only [hdec] at hmod ⊢
             unfold validateValue at hmod ⊢
             simp only [Bool.not_true, Bool.false_eq_true, if_false] at hmod ⊢
-            by_cases hu : dfltUnderNot s = true
-            · simp [hu] at hmod
-            · simp only [hu, Bool.false_eq_true, if_false]
-              refine Iff.trans (b := SatReq exro s (complete exro s v)) ?_ ?_
+            · refine Iff.trans (b := SatReq exro s (complete exro s v)) ?_ ?_
               · rw [← hvis]
                 cases visD true exro s v <;> simp [Outcome.isOk]
               · constructor
